@@ -1,2 +1,88 @@
-//! harnesses mounted into the crate (see DESIGN.md 3.1)
+//! C18: key hashing. Child of the crate root.
 #![allow(dead_code, unused_imports)]
+use super::*;
+use crate::verif_nd::{self as nd, harness, vassert, vcover};
+
+macro_rules! transparent_harness {
+    ($name:ident, $t:ty, $any:expr, $min:expr, $max:expr) => {
+        harness! {
+            []
+            fn $name() {
+                let a: $t = $any;
+                let b: $t = $any;
+                let kb = TransparentKeyBuilder::<$t>::default();
+                let (ia, ca) = kb.build_key(&a);
+                vassert!(ia == a as u64, "TransparentKeyBuilder maps an integer key to itself");
+                vassert!(ia == a.to_u64(), "index hash equals TransparentKey::to_u64");
+                vassert!(ca == 0 && kb.hash_conflict(&a) == 0, "transparent keys have conflict hash 0");
+                vassert!(kb.hash_index(&a) == ia && kb.build_key(&a) == (ia, ca), "hashing is deterministic");
+                let (ib, _) = kb.build_key(&b);
+                vassert!((a == b) == (ia == ib), "distinct integer keys never collide");
+                vcover!(a == $min, "minimum value");
+                vcover!(a == $max, "maximum value");
+                vcover!(a != b, "two distinct keys");
+            }
+        }
+    };
+}
+
+transparent_harness!(c18_transparent_u8, u8, nd::any_u8(), u8::MIN, u8::MAX);
+transparent_harness!(c18_transparent_u16, u16, nd::any_u16(), u16::MIN, u16::MAX);
+transparent_harness!(c18_transparent_u32, u32, nd::any_u32(), u32::MIN, u32::MAX);
+transparent_harness!(c18_transparent_u64, u64, nd::any_u64(), u64::MIN, u64::MAX);
+transparent_harness!(c18_transparent_usize, usize, nd::any_usize(), usize::MIN, usize::MAX);
+transparent_harness!(c18_transparent_i8, i8, nd::any_u8() as i8, i8::MIN, i8::MAX);
+transparent_harness!(c18_transparent_i16, i16, nd::any_u16() as i16, i16::MIN, i16::MAX);
+transparent_harness!(c18_transparent_i32, i32, nd::any_u32() as i32, i32::MIN, i32::MAX);
+transparent_harness!(c18_transparent_i64, i64, nd::any_i64(), i64::MIN, i64::MAX);
+transparent_harness!(c18_transparent_isize, isize, nd::any_i64() as isize, isize::MIN, isize::MAX);
+
+harness! {
+    []
+    fn c18_transparent_bool() {
+        let a = nd::any_bool();
+        let b = nd::any_bool();
+        let kb = TransparentKeyBuilder::<bool>::default();
+        let (ia, ca) = kb.build_key(&a);
+        vassert!(ia == a as u64 && ia == a.to_u64() && ca == 0, "TransparentKeyBuilder maps a bool key to 0/1");
+        let (ib, _) = kb.build_key(&b);
+        vassert!((a == b) == (ia == ib), "distinct bool keys never collide");
+        vcover!(a && !b, "true and false");
+    }
+}
+
+/// `String` and `&str` spellings of the same key hash identically under the default key builder
+/// (sea hash index, xxh64 conflict with an arbitrary seed).
+fn default_str_string<const N: usize>() {
+    let seed = nd::any_u64();
+    let kb: DefaultKeyBuilder<String> = DefaultKeyBuilder {
+        xx: xxhash_rust::xxh64::Xxh64Builder::new(seed),
+        sea: Default::default(),
+        _marker: Default::default(),
+    };
+    let len = nd::any_usize_in(0, N);
+    let mut v = Vec::with_capacity(N);
+    let mut i = 0;
+    while i < N {
+        if i < len {
+            let b = nd::any_u8();
+            nd::assume(b < 0x80);
+            v.push(b);
+        }
+        i += 1;
+    }
+    let s: String = unsafe { String::from_utf8_unchecked(v) };
+    let owned = kb.build_key(&s);
+    let borrowed = kb.build_key(s.as_str());
+    vassert!(owned == borrowed, "a key hashes to the same (index, conflict) pair however it is borrowed");
+    vassert!(kb.build_key(&s) == owned, "hashing is deterministic");
+    vcover!(len == N, "longest string");
+    vcover!(len == 0, "empty string");
+}
+
+harness! {
+    [kani::unwind(12)]
+    fn c18_default_str_string_4() {
+        default_str_string::<4>();
+    }
+}
